@@ -93,6 +93,60 @@ func installNatives(it *Interp) {
 		}}}
 	}
 	installSetNatives(it)
+	n["slices.Concat"] = func(it *Interp, args []Value) []Value {
+		out := &SliceV{elems: []Value{}}
+		for _, a := range args {
+			if s, ok := a.(*SliceV); ok && s != nil {
+				out.elems = append(out.elems, s.elems...)
+			}
+		}
+		return []Value{out}
+	}
+	n["slices.Sort"] = func(it *Interp, args []Value) []Value {
+		if s, ok := args[0].(*SliceV); ok && s != nil {
+			sort.SliceStable(s.elems, func(i, j int) bool {
+				a, aok := s.elems[i].(string)
+				b, bok := s.elems[j].(string)
+				if aok && bok {
+					return a < b
+				}
+				ai, _ := s.elems[i].(int64)
+				bi, _ := s.elems[j].(int64)
+				return ai < bi
+			})
+		}
+		return nil
+	}
+	n["slices.Compact"] = func(it *Interp, args []Value) []Value {
+		s, ok := args[0].(*SliceV)
+		if !ok || s == nil {
+			return []Value{args[0]}
+		}
+		out := &SliceV{elems: []Value{}}
+		for i, e := range s.elems {
+			if i == 0 || !valuesEqual(e, s.elems[i-1]) {
+				out.elems = append(out.elems, e)
+			}
+		}
+		return []Value{out}
+	}
+	n["slices.ContainsFunc"] = func(it *Interp, args []Value) []Value {
+		s, _ := args[0].(*SliceV)
+		if s != nil {
+			for _, e := range s.elems {
+				res := it.callValue(nil, args[1], []Value{e})
+				if b, ok := res[0].(bool); ok && b {
+					return []Value{true}
+				}
+			}
+		}
+		return []Value{false}
+	}
+	n["(*sync.WaitGroup).Go"] = func(it *Interp, args []Value) []Value {
+		it.callValue(nil, args[1], nil) // one legal schedule: run the task at once (race freedom is C09's subject)
+		return nil
+	}
+	n["(*sync.WaitGroup).Wait"] = func(it *Interp, args []Value) []Value { return nil }
 	n["text/template.New"] = func(it *Interp, args []Value) []Value { return []Value{&Ext{"template"}} }
 	n["(*text/template.Template).Funcs"] = func(it *Interp, args []Value) []Value { return []Value{&Ext{"template"}} }
 	n["(*text/template.Template).Parse"] = func(it *Interp, args []Value) []Value { return []Value{&Ext{"template"}, Nil{}} }
@@ -425,6 +479,7 @@ type region struct {
 	jumpVar    types.Object
 	compileVar types.Object
 	problems   []string
+	full       []ast.Stmt // Compile from its first statement to the end of the emission region
 }
 
 func findRegion(r *Repo) *region {
@@ -465,6 +520,7 @@ func findRegion(r *Repo) *region {
 		return rg
 	}
 	rg.stmts = fd.Body.List[start:end]
+	rg.full = fd.Body.List[:end]
 	// identify closures by role
 	for _, st := range rg.stmts {
 		as, ok := st.(*ast.AssignStmt)
@@ -571,7 +627,13 @@ type emission struct {
 	JumpsReal []int64 // … and during the real pass
 }
 
-func (m *model) run(rg *region) (em *emission) {
+func (m *model) run(rg *region) (em *emission) { return m.runStmts(rg, rg.stmts) }
+
+// runFull evaluates Compile from its first statement (first pass, link, the two
+// analysis tasks run one after the other, the -switch rewrite, emission).
+func (m *model) runFull(rg *region) (em *emission) { return m.runStmts(rg, rg.full) }
+
+func (m *model) runStmts(rg *region, stmts []ast.Stmt) (em *emission) {
 	it := m.it
 	em = &emission{ChildUses: map[int]int{}, Flags: map[int][2]bool{}}
 	it.out = &strings.Builder{}
@@ -596,6 +658,9 @@ func (m *model) run(rg *region) (em *emission) {
 			var v Value = &Unknown{"parameter " + n.Name}
 			if n.Name == "file" {
 				v = "model.peg"
+			}
+			if n.Name == "args" {
+				v = &SliceV{elems: []Value{"peg"}}
 			}
 			env.define(info.Defs[n], v)
 		}
@@ -671,6 +736,25 @@ func (m *model) run(rg *region) (em *emission) {
 			return nil, false
 		}
 	}
+	// link and the left-recursion walk on an opaque child
+	if fd, _ := findDecl(it, "Tree", "link"); fd != nil {
+		it.hooks[fd] = func(it *Interp, cl *Closure, args []Value) ([]Value, bool) {
+			if n, ok := args[1].(*Obj); ok && m.oinfo(n) != nil {
+				return nil, true
+			}
+			return nil, false
+		}
+	}
+	if fd, _ := findDecl(it, "Tree", "checkRecursion"); fd != nil {
+		it.hooks[fd] = func(it *Interp, cl *Closure, args []Value) ([]Value, bool) {
+			if n, ok := args[0].(*Obj); ok {
+				if oi := m.oinfo(n); oi != nil {
+					return []Value{oi.consumes}, true
+				}
+			}
+			return nil, false
+		}
+	}
 	// warn collector
 	if fd, _ := findDecl(it, "Tree", "warn"); fd != nil {
 		it.hooks[fd] = func(it *Interp, cl *Closure, args []Value) ([]Value, bool) {
@@ -716,7 +800,7 @@ func (m *model) run(rg *region) (em *emission) {
 		}
 	}
 	defer func() { it.onCall, it.onRet = nil, nil }()
-	c := it.execBlock(rg.stmts, env)
+	c := it.execBlock(stmts, env)
 	if c == cReturn {
 		em.Err = "the emission region returned early (template parse/execute error path taken)"
 	}
